@@ -105,8 +105,8 @@ def check_signature(ctx, params, ret, rnd):
     if has_po:
         compare('s(chevron text)', lambda: support.s(text_chevrons(params), globals=dict(GLOBS), **retarg))
     # func_from_sig works from str(sig): only literal defaults/annotations survive str()
-    literal = all((d is None or d.isdigit()) and (a is None or a.isdigit() or a[0] in '\'"') for n, k, d, a in params) \
-        and (ret is None or ret.isdigit() or ret[0] in '\'"')
+    literal = all((d is None or d.isdigit() or d in RICH) and (a is None or a.isdigit() or a[0] in '\'"' or a in RICH) for n, k, d, a in params) \
+        and (ret is None or ret.isdigit() or ret[0] in '\'"' or ret in RICH)
     if literal:
         ctx.count('C20.func_from_sig')
         compare('func_from_sig(sig)', lambda: sigtools.signature(support.func_from_sig(want_sig)))
@@ -224,19 +224,33 @@ def check_signature(ctx, params, ret, rnd):
                 dict(w, extra=extra, missing=repr(missing)), rp)
 
 
+# literal defaults / annotations whose text contains the characters the string form is cut at (commas, colons,
+# equal signs, brackets, both kinds of quotes); all survive str(signature) (repr) unchanged in value
+RICH_DEFAULTS = ('(1, 2)', "'x, y'", '"it\'s"', '[1, 2]', "{'k':1, 'j':2}", "'a=b'", "'c:d'", '\'say "hi", it\\\'s\'', "('(', ']')", "''", '()')
+RICH_ANNOTATIONS = ("'x, y'", '(1, 2)', "'p=q'", '{1:2}', '"don\'t"', "'r:s'", '[1, [2, 3]]')
+RICH = set(RICH_DEFAULTS) | set(RICH_ANNOTATIONS)
+
+
 def decorate(rnd, params):
     out = []
     literal = rnd.random() < 0.6
+    rich = literal and rnd.random() < 0.4
     for i, (n, k, d, a) in enumerate(params):
         if d is not None:
             d = str(10 * (i + 1))
+            if rich and rnd.random() < 0.6:
+                d = rnd.choice(RICH_DEFAULTS)
         r = rnd.random()
         if r < 0.35:
             a = rnd.choice(('1', '2', "'note'")) if literal else rnd.choice(('T', 'U'))
+            if rich and rnd.random() < 0.5:
+                a = rnd.choice(RICH_ANNOTATIONS)
         out.append((n, k, d, a))
     ret = None
     if rnd.random() < 0.5:
         ret = rnd.choice(('1', "'r'")) if literal else rnd.choice(('T', 'U'))
+        if rich and rnd.random() < 0.3:
+            ret = rnd.choice(("'x, y'", '(1, 2)'))
     return tuple(out), ret
 
 
